@@ -302,4 +302,36 @@ func CaptureStderr(f func()) string {
 	return <-done
 }
 
+// CaptureStdout runs f and returns what was written to os.Stdout meanwhile.
+func CaptureStdout(f func()) string {
+	old := os.Stdout
+	r, w, err := os.Pipe()
+	if err != nil {
+		f()
+		return ""
+	}
+	os.Stdout = w
+	done := make(chan string)
+	go func() {
+		var b strings.Builder
+		buf := make([]byte, 4096)
+		for {
+			n, err := r.Read(buf)
+			b.Write(buf[:n])
+			if err != nil {
+				break
+			}
+		}
+		done <- b.String()
+	}()
+	func() {
+		defer func() {
+			os.Stdout = old
+			w.Close()
+		}()
+		f()
+	}()
+	return <-done
+}
+
 func EnvSetBool(key string, val bool) {}
